@@ -353,6 +353,8 @@ def corruption_selftest(ctx, tracefile, spec, cfg, keep, sk_ops, mutators):
                 v = validate(ctx, spec, cfg, proj)
                 hid = evs[0]["id"]
                 verd.append(v.get(hid, {}).get("verdict"))
+                if tag == "orig" and v.get(hid, {}).get("oos"):
+                    verd[0] = "OOS"   # the facet stopped judging this history: useless for a binding test
             if verd[0] != "ACC":
                 continue     # pick another history (this one is not accepted to begin with)
             if verd[1] != "REJ":
